@@ -24,7 +24,10 @@ def main():
     race = "--race" in a
     checks = [prop]
     tier = "quick"
+    runpat = None
     for i, x in enumerate(a):
+        if x == "--run":
+            runpat = a[i + 1]
         if x == "--checks":
             checks = a[i + 1].split(",")
         if x == "--tier":
@@ -58,7 +61,8 @@ def main():
         demo_name = f"mut_demo_{variant.lower()}_test.go"
         shutil.copy(demo, os.path.join(wt, dest, demo_name))
         flags = "-race " if race else ""
-        run = f"go test {flags}-vet=off -count=1 -run 'TestMutDemo{variant}' ./{dest}/"
+        pat = runpat or f"TestMutDemo{variant}"
+        run = f"go test {flags}-vet=off -count=1 -run '{pat}' ./{dest}/"
         rc, o = sh(run, cwd=wt)
         meta["demo_cmd"] = run
         meta["demo_fails_with_change"] = rc != 0
